@@ -201,10 +201,10 @@ func (g *c15Gen) tree(k int, cx c15Cx, yield func(*c15Node) bool) bool {
 // ---- lowering a forest to a procedure ------------------------------------------------------------------
 
 const (
-	c15A = "a" // the variable
-	c15C = "c" // the cursor
-	c15T = "t" // the temporary table
-	c15F = "f" // the function
+	c15A = "a"  // the variable
+	c15C = "c"  // the cursor
+	c15T = "t"  // the temporary table
+	c15F = "f"  // the function
 	c15G = "ga" // the aggregate function
 )
 
